@@ -16,6 +16,12 @@ CH = {
    text="Seeded search over generated JSON documents x comment decorations x read segmentations (down to 1 byte, forced boundaries inside two-byte markers/escapes) x EOF placement; oracle = encoding/json on the undecorated text plus byte-for-byte pass-through of comment-free documents. Sampling, not proof; this is the I/O dimension of the property (where reads end decides the split function's behaviour).",
    note="Trusted: encoding/json as reference decoder; the document generator only emits valid JSON (checked per run, invalid ones are discarded and counted)."),
 }
+CH["C01"] = dict(level="exploration", design="3/C01", technique="deterministic simulation: two real endpoints + 4 scheduled tasks on a sim transport, seeded schedule/segmentation search, reference chunk parser on the wire",
+   text="Seeded search over message sequences x Set Chunk Size announcements by either side at any position x per-direction read/write segmentation (down to 1 byte) x task interleavings of writer and reader tasks of two real Protocol endpoints after the real simple handshake. Oracles: read-back sequence equals written sequence (type, stream id, timestamp, payload), clean EOF at the end, and an independent RTMP 1.0 chunk parser must re-derive the same messages from the recorded wire with the chunk size in force. Sampling, not proof.",
+   note="Trusted: reference chunk parser (ref/rtmp.go), stream-id recovery by header re-serialisation. Set Chunk Size is announced via WritePacket only.")
+CH["C09"] = dict(level="exploration", design="3/C09", technique="deterministic simulation: sim disk with recorded writes and seeded read segmentation + reference FLV v1 parser/writer as invariant and peer",
+   text="Seeded search over header flags x tag sequences with boundary sizes/timestamps x writer (library muxer or reference writer) x read segmentation of the sim disk (down to 1 byte). Invariant after every WriteHeader/WriteTag event: the durable bytes parse under a strict reference FLV v1 parser to exactly the tags written and equal the reference writer's bytes; demuxed tags equal written tags; clean EOF after the last tag. Sampling, not proof; the crash/torn-tail dimension is C08's.",
+   note="Trusted: reference FLV parser/writer (ref/flv.go).")
 def main():
     import os
     extra = {}
